@@ -162,3 +162,38 @@ pub fn c18_stepenv_step_uses_its_own_generator() {
     vcheck!(se.time() == t + step, "PY.time_is_the_core_clock");
     core::mem::forget(se);
 }
+
+/// C18: an off-grid price makes `StepEnv.place_order` raise (exactly one ValueError is built) and
+/// leaves the environment exactly as it was: no order record, nothing queued; an on-grid price queues
+/// exactly one New instruction for the freshly created order
+#[kani::proof]
+#[kani::unwind(12)]
+#[kani::stub(pyo3::exceptions::PyValueError::new_err, crate::order_book::verif_proofs::stub_new_err_counted)]
+#[kani::stub(core::fmt::write, crate::order_book::verif_proofs::stub_fmt_write)]
+pub fn c18_stepenv_place_any_price_tick3() {
+    let t = any_u64();
+    let step = any_u64();
+    let mut se = StepEnv { env: BaseEnv::new(t, 3, step, any_bool()), rng: Xoroshiro128StarStar::seed_from_u64(0) };
+    let bid = any_bool();
+    let vol = any_u32();
+    let trader = any_u32();
+    let price = any_u32();
+    let got = se.place_order(bid, vol, trader, Some(price));
+    let built = unsafe { crate::order_book::verif_proofs::ERRS_BUILT };
+    if price % 3 == 0 {
+        let ok = matches!(&got, Ok(0));
+        vcheck!(ok && built == 0, "PY.place_order_returns_the_cores_id");
+        vcheck!(se.env.verif_queue_len() == 1 && se.env.verif_queued(0) == (0, 0, None, None), "PY.submissions_queue_exactly_the_submitted_instructions");
+        let o = se.env.order(0);
+        vcheck!(matches!(o.side, bourse_book::types::Side::Bid) == bid && o.vol == vol && o.trader_id == trader && o.price == price && o.status == Status::New,
+            "PY.true_means_bid_and_arguments_are_forwarded_unchanged");
+    } else {
+        vcheck!(got.is_err() && built == 1, "PY.off_grid_price_raises_one_value_error");
+        vcheck!(se.env.verif_queue_len() == 0 && se.env.get_orderbook().verif_n_orders() == 0, "PY.environment_unchanged_after_a_rejected_submission");
+    }
+    vcheck!(se.time() == t && se.bid_ask() == (0, Price::MAX), "PY.environment_unchanged_after_a_rejected_submission");
+    core::mem::forget(got);
+    vcover!(price % 3 != 0, "cover.off_grid_price_rejected");
+    vcover!(price % 3 == 0 && price > 0, "cover.on_grid_limit_order_queued");
+    core::mem::forget(se);
+}
